@@ -99,7 +99,11 @@ func runSysRace(x *X) {
 		}
 	}
 	if c.Intn(2, "breaker") == 1 {
-		o.breaker = &config.CircuitBreakerConfig{Enabled: true, MaxRequests: 2, IntervalSeconds: 30, TimeoutSeconds: 1, FailureThreshold: 2 + c.Intn(3, "ft"), SuccessThreshold: 1}
+		// low thresholds and several trials: state changes by different goroutines follow each other closely
+		o.breaker = &config.CircuitBreakerConfig{Enabled: true, MaxRequests: 1 + c.Intn(3, "mr"), IntervalSeconds: 30, TimeoutSeconds: 1, FailureThreshold: 1 + c.Intn(3, "ft"), SuccessThreshold: 1 + c.Intn(2, "st")}
+		if o.breaker.SuccessThreshold > o.breaker.MaxRequests {
+			o.breaker.MaxRequests = o.breaker.SuccessThreshold
+		}
 	}
 	if c.Intn(2, "limiter") == 1 {
 		o.limiter = &config.RateLimitConfig{Enabled: true, MaxTokens: 5 + c.Intn(20, "tokens"), RefillRate: 1}
@@ -116,12 +120,18 @@ func runSysRace(x *X) {
 		panic(err)
 	}
 	defer env.close()
+	// in half of the runs every goroutine gives up the processor right after releasing a lock
+	simrt.FreeYieldOnUnlock.Store(c.Intn(2, "yield-on-unlock") == 1)
+	defer simrt.FreeYieldOnUnlock.Store(false)
 	mux := adminapi.NewMux(env.lb, env.cfg, env.lb.GetMetricsCollector())
 	mc := env.lb.GetMetricsCollector()
 	nG := 8 + c.Intn(17, "goroutines")
 	if x.Tier == "thorough" {
 		nG = 8 + c.Intn(57, "goroutines64")
 	}
+	// pace of the workers: fast bursts, or slow enough for unhealthy windows, breaker timeouts
+	// and probe intervals to elapse in the middle of the mix (virtual time costs nothing)
+	pace := []time.Duration{10 * time.Millisecond, 10 * time.Millisecond, 150 * time.Millisecond, 400 * time.Millisecond}[c.Intn(4, "pace")]
 	type op struct {
 		kind string
 		ex   *exchange
@@ -148,7 +158,11 @@ func runSysRace(x *X) {
 				}
 				ex.newConn = c.Intn(3, "newconn") == 0
 				rs := &respScript{status: 200, framing: "cl", hdr: []hdrKV{{"Content-Type", "text/plain"}}, body: []byte(fmt.Sprintf("resp-%d-%d", g, i))}
-				switch c.Intn(8, "fault") {
+				faultOdds := 8
+				if o.breaker != nil {
+					faultOdds = 5 // the breaker should see enough failures to cycle through its states
+				}
+				switch c.Intn(faultOdds, "fault") {
 				case 0:
 					rs.status = 500
 					x.Fault("backend-5xx")
@@ -209,7 +223,7 @@ func runSysRace(x *X) {
 					r.RemoteAddr = "127.0.0.1:1"
 					h.ServeHTTP(newRecorder(), r)
 				}
-				time.Sleep(time.Duration(1+len(o.path)%7) * 10 * time.Millisecond)
+				time.Sleep(time.Duration(1+len(o.path)%7) * pace)
 			}
 		}(cl, ops)
 	}
@@ -246,6 +260,16 @@ func runSysRace(x *X) {
 			x.Violate("C12", "C12/shutdown-blocked", "shutdownGracefully did not return within a simulated minute after concurrent traffic")
 		}
 		x.Probe("race-run-completed")
+		if o.breaker != nil {
+			for _, cbm := range mc.GetMetrics().CircuitBreakerMetrics {
+				if !cbm.LastStateChange.IsZero() {
+					x.Probe("breaker-changed-state")
+				}
+				if cbm.State != "CLOSED" && cbm.State != "closed" {
+					x.Probe("breaker-not-closed-at-end")
+				}
+			}
+		}
 	}
 	for _, p := range stdLogWatcher.take() {
 		x.Violate("C12", "C12/panic{"+panicKey(p)+"}", "net/http reported: %s", p)
